@@ -171,7 +171,7 @@ def run(ctx):
 def sweep_np2(ctx):
     """exhaustive 2^31 sweep of the 32-bit next-power-of-two on the C side against the closed form
     (witness search only; the theorem np2_32_spec is what covers all arguments)"""
-    exe = ctx.build_harness("c20_sweep", san=False, extra=["-O2", "-fopenmp"])
+    exe = ctx.build_harness("c20_sweep", tag="nosan", san=False, extra=["-O2", "-fopenmp"])
     rc, out, err = vlib.sh([exe], timeout=3000)
     ctx.stats["np2_32_sweep"] = out.strip()
     if rc != 0:
